@@ -366,11 +366,15 @@ def oracle_helper(case) -> Result:
 # restricted models reject unsupported precisions / kinds
 # ----------------------------------------------------------------------------------------
 def enum_rejects(tier):
-    for a in (1, 3, 5, 6, 7, 16, 32):
-        for w in (2, 8):
-            for t in ('Conv1d', 'Conv2d', 'Linear'):
-                yield {'mode': 'reject', 'spec': 'mpic_latency', 'type': t, 'dw': False, 'k': 3,
-                       'w_bits': w, 'a_bits': a}
+    # every unsupported activation precision (0 included) against EVERY weight precision of the
+    # grid (0 = pruned included), both MPIC models, every layer kind
+    for spec in ('mpic_latency', 'mpic_energy'):
+        for a in (0, 1, 3, 5, 6, 7, 16, 32):
+            for w in (0, 2, 4, 8):
+                for t, dw in (('Conv1d', False), ('Conv1d', True), ('Conv2d', False),
+                              ('Conv2d', True), ('Linear', False)):
+                    yield {'mode': 'reject', 'spec': spec, 'type': t, 'dw': dw, 'k': 3,
+                           'w_bits': w, 'a_bits': a}
     for w in (1, 3, 5, 6, 16):
         yield {'mode': 'reject', 'spec': 'mpic_latency', 'type': 'Conv2d', 'dw': False, 'k': 3,
                'w_bits': w, 'a_bits': 8}
